@@ -1,7 +1,6 @@
 mod c15;
 mod c16;
-mod hist;
-mod sim;
+use mon_agg::{hist, sim};
 
 use mithril_common::entities::SignedEntityTypeDiscriminants;
 use serde_json::{json, Value};
